@@ -134,12 +134,14 @@ class FeeField(DataflowTransactionContext):
             if compared_value.is_unknown:
                 return compared_value, FeeValue()
             return FeeValue(value=max(0, compared_value.value - 1)), FeeValue()
+        # x <= MAX_UINT64 is never false, x > MAX_UINT64 is never true.
+        is_max_uint64 = not compared_value.is_unknown and compared_value.value >= MAX_UINT64
         if is_less_e:
             # x <= i => i, U
-            return compared_value, FeeValue()
+            return compared_value, FeeValue(value=0) if is_max_uint64 else FeeValue()
         if is_greater:
             # x > i => U, i
-            return FeeValue(), compared_value
+            return FeeValue(value=0) if is_max_uint64 else FeeValue(), compared_value
         if is_greater_e:
             # x >= i => U, (i - 1)
             if compared_value.is_unknown:
